@@ -21,6 +21,7 @@ E('D1.three_epoch', 'D1.two_epoch', 'T=0', {'nuB': 'nu', 'nuF': 1.7, 'TB': 'T', 
 E('D1.three_epoch', 'D1.two_epoch', 'T=0', {'nuB': 0.6, 'nuF': 'nu', 'TB': 0, 'TF': 'T'})
 
 # ------------------------------------------------------------------ two populations, Portik family
+E('D2.no_mig', 'D2.snm_2d', 'T=0', {'nu1': 1.3, 'nu2': 0.7, 'T': 0})
 E('D2.sym_mig', 'D2.no_mig', 'm=0', {'m': 0})
 E('D2.asym_mig', 'D2.sym_mig', 'm12=m21', {'m12': 'm', 'm21': 'm'})
 E('D2.asym_mig', 'D2.no_mig', 'm=0', {'m12': 0, 'm21': 0})
@@ -62,7 +63,6 @@ E('D2.asym_mig_twoepoch', 'D2.sec_contact_asym_mig', 'm=0', {'m12a': 0, 'm21a': 
 E('D2.sec_contact_sym_mig_three_epoch', 'D2.sec_contact_sym_mig', 'T=0', {'T3': 0})
 E('D2.sec_contact_sym_mig_three_epoch', 'D2.anc_sym_mig', 'T=0', {'T1': 0, 'T2': 'T1', 'T3': 'T2'})
 E('D2.sec_contact_sym_mig_three_epoch', 'D2.sec_contact_asym_mig_three_epoch', 'm12=m21', None)   # reversed below
-E('D2.sec_contact_asym_mig_three_epoch', 'D2.anc_asym_mig', 'T=0', {'T1': 0, 'T2': 'T1'})           # needs T2(simple) == T1(simple): handled by 'tie'
 E('D2.sec_contact_sym_mig_size_three_epoch', 'D2.sec_contact_sym_mig_size', 'T=0', {'T3': 0})
 E('D2.sec_contact_sym_mig_size_three_epoch', 'D2.anc_sym_mig', 'T=0', {'nu1a': 0.7, 'nu2a': 1.9, 'nu1b': 'nu1', 'nu2b': 'nu2', 'T1': 0, 'T2': 'T1', 'T3': 'T2'})
 E('D2.sec_contact_asym_mig_size_three_epoch', 'D2.sec_contact_sym_mig_size_three_epoch', 'm12=m21', {'m12': 'm', 'm21': 'm'})
@@ -212,7 +212,5 @@ SWAPS = {
     'D2.vic_sec_contact_asym_mig': {'s': '1-s', 'm12': 'm21', 'm21': 'm12'},
     'D2.IM': {'s': '1-s', 'nu1': 'nu2', 'nu2': 'nu1', 'm12': 'm21', 'm21': 'm12'},
     'D2.IM_pre': {'s': '1-s', 'nu1': 'nu2', 'nu2': 'nu1', 'm12': 'm21', 'm21': 'm12'},
-    'SEL.split_mig_sel': {'nu1': 'nu2', 'nu2': 'nu1', 'gamma1': 'gamma2', 'gamma2': 'gamma1'},
-    'SEL.split_asym_mig_sel': {'nu1': 'nu2', 'nu2': 'nu1', 'm12': 'm21', 'm21': 'm12', 'gamma1': 'gamma2', 'gamma2': 'gamma1'},
     'SEL.split_mig_sel_single_gamma': {'nu1': 'nu2', 'nu2': 'nu1'},
 }
